@@ -91,6 +91,17 @@ class ClearAll(FnContract):
             P.check(qn + "/ensures:cleared:" + name, any(f is c.fields['to_mask'] for f in st.cleared))
 
 
+class ClearAllInSubsetModule(ClearAll):
+    """the same clearing walk, as defined next to the selection classes and used by CompositeSubsetState.move_to"""
+    target = "glue/core/subset.py:_clear_mask_caches"
+
+    def finish(self, cfg, st, P, outcome):
+        qn = "_clear_mask_caches[%s]" % self.cfg_name(cfg)
+        P.check(qn + "/never-raises", outcome[0] == 'return')
+        for name, c in st.classes.items():
+            P.check(qn + "/ensures:cleared:" + name, any(f is c.fields['to_mask'] for f in st.cleared))
+
+
 class UpdateComponents(FnContract):
     property_ids = ('C05', 'C17')
     target = "glue/core/data.py:Data.update_components"
@@ -172,7 +183,7 @@ class UpdateComponents(FnContract):
 class CompositeMoveTo(FnContract):
     property_ids = ('C05', 'C08')
     target = "glue/core/subset.py:CompositeSubsetState.move_to"
-    title = "children's regions are moved first, then the composite's own memoised mask is invalidated (nothing is moved after that)"
+    title = "every child's region is moved to the requested position and the memoised masks of all selection classes (own and enclosing composites') are invalidated"
 
     def configs(self, tier):
         return [dict(arity=1), dict(arity=2, centers='none'), dict(arity=2, centers='first-only')]
@@ -198,7 +209,9 @@ class CompositeMoveTo(FnContract):
         return Inputs([me, x, y], st=st)
 
     def globals_(self, cfg, st):
-        return {'clear_cache': Builtin('clear_cache', lambda I, f: st.events.append(('clear', f)))}
+        # _clear_mask_caches is under its own contract (ClearAllInSubsetModule): every selection class's to_mask cache is cleared
+        return {'clear_cache': Builtin('clear_cache', lambda I, f: st.events.append(('clear', f))),
+                '_clear_mask_caches': Builtin('_clear_mask_caches', lambda I: st.events.append(('clear-all',)))}
 
     def finish(self, cfg, st, P, outcome):
         qn = "CompositeSubsetState.move_to[%s]" % self.cfg_name(cfg)
@@ -209,10 +222,10 @@ class CompositeMoveTo(FnContract):
         P.check(qn + "/ensures:every-child-moved-once", sorted(moved) == list(range(1, cfg['arity'] + 1)))
         P.check(qn + "/ensures:children-moved-to-the-requested-position",
                 all(len(e[2]) == 2 and e[2][0] is st.x and e[2][1] is st.y for e in ev if e[0] == 'move'))
-        # nothing can evaluate the composite between the moves and the return, so clearing before, between or after the moves
-        # leaves the cache empty at exit all the same: only "its own memoised to_mask was invalidated" is demanded
-        P.check(qn + "/ensures:own-cache-invalidated",
-                any(e[0] == 'clear' and e[1] is st.me.fields['to_mask'] for e in ev))
+        # nothing can evaluate a selection between the moves and the return, so clearing before, between or after the moves is the same;
+        # but the masks of *enclosing* composites (InvertState and MultiOrState memoise separately) were computed from this one as well:
+        # invalidating only the composite's own memo is not enough
+        P.check(qn + "/ensures:memoised-masks-of-all-selection-classes-invalidated", any(e[0] == 'clear-all' for e in ev))
 
 
-CONTRACTS = [ClearCache(), ClearAll(), UpdateComponents(), CompositeMoveTo()]
+CONTRACTS = [ClearCache(), ClearAll(), ClearAllInSubsetModule(), UpdateComponents(), CompositeMoveTo()]
